@@ -1,5 +1,6 @@
-(* C17: the window bookkeeping of cli/inputs.go does NOT meet the specification.
-   Witnesses are the canonical cases of checks/c17.py (reproduced on the real command). *)
+(* C17: regression examples — earlier versions of the window bookkeeping of cli/inputs.go that do NOT meet the
+   specification (D7: whole buffer dropped; cr-window: only LF counted in the dropped bytes), on the canonical
+   cases of checks/c17.py, next to the current code on the same inputs. *)
 From Coq Require Import List ZArith NArith Bool Lia String.
 From Verif Require Import common.Sexp c17.ErrPos c17.Spec c17.Window.
 Import ListNotations.
@@ -43,28 +44,59 @@ Lemma d7_now_right : forall swidth,
   (codes "{""b"": tru }", 165, swidth (codes "{""b"": tru")).
 Proof. intros sw. vm_compute. reflexivity. Qed.
 
-(* 200 documents of 100 bytes terminated by a lone CR, then the faulty document *)
+(* 200 documents of 100 bytes terminated by a lone CR, then the faulty document: finding "cr-window".
+   The counting BEFORE the repair (crfix = false: bytes.Count(dropped, "\n")) reports line 42 resp. 164 instead of
+   201; the current code (crfix = true) reports 201 — regression examples, the general statements are
+   seek_window_correct / pipe_window_kept. *)
 Definition cr_input : list N := rep_app 200 (doc100 13) (bad_doc 13).
 Definition cr_E : Z := 20010.
 
-Lemma cr_seek_wrong : forall swidth,
-  ~ pos_ok swidth cr_input (Z.to_nat (cr_E - 1)) (report_of swidth (seek_report cr_input (Some cr_E))).
+Lemma cr_seek_old_wrong : forall swidth,
+  ~ pos_ok swidth cr_input (Z.to_nat (cr_E - 1)) (report_of swidth (lf_seek_report cr_input (Some cr_E))).
 Proof.
   intros sw H.
-  assert (L : snd (fst (report_of sw (seek_report cr_input (Some cr_E)))) = 42) by (vm_compute; reflexivity).
-  destruct (report_of sw (seek_report cr_input (Some cr_E))) as [[ex line] col].
+  assert (L : snd (fst (report_of sw (lf_seek_report cr_input (Some cr_E)))) = 42) by (vm_compute; reflexivity).
+  destruct (report_of sw (lf_seek_report cr_input (Some cr_E))) as [[ex line] col].
   cbn [fst snd] in L. subst line. destruct H as [H _]. vm_compute in H. discriminate H.
 Qed.
+
+Lemma cr_seek_now_right : forall swidth,
+  report_of swidth (seek_report cr_input (Some cr_E)) = (codes "{""b"": tru }", 201, swidth (codes "{""b"": tru")).
+Proof. intros sw. vm_compute. reflexivity. Qed.
 
 (* the same input on the non-seekable path, every value delivered with everything already read *)
 Definition cr_steps : list (Z * Z) := map (fun i => (20012, 100 * Z.of_nat i)) (seq 1 200).
 Lemma cr_chunking : chunking_ok cr_input cr_steps 20012 cr_E.
 Proof. vm_compute. reflexivity. Qed.
-Lemma cr_pipe_wrong : forall swidth,
-  ~ pos_ok swidth cr_input (Z.to_nat (cr_E - 1)) (report_of swidth (pipe_report cr_input cr_steps 20012 (Some cr_E))).
+Lemma cr_pipe_old_wrong : forall swidth,
+  ~ pos_ok swidth cr_input (Z.to_nat (cr_E - 1)) (report_of swidth (lf_pipe_report cr_input cr_steps 20012 (Some cr_E))).
 Proof.
   intros sw H.
-  assert (L : snd (fst (report_of sw (pipe_report cr_input cr_steps 20012 (Some cr_E)))) = 164) by (vm_compute; reflexivity).
-  destruct (report_of sw (pipe_report cr_input cr_steps 20012 (Some cr_E))) as [[ex line] col].
+  assert (L : snd (fst (report_of sw (lf_pipe_report cr_input cr_steps 20012 (Some cr_E)))) = 164) by (vm_compute; reflexivity).
+  destruct (report_of sw (lf_pipe_report cr_input cr_steps 20012 (Some cr_E))) as [[ex line] col].
   cbn [fst snd] in L. subst line. destruct H as [H _]. vm_compute in H. discriminate H.
 Qed.
+
+Lemma cr_pipe_now_right : forall swidth,
+  report_of swidth (pipe_report cr_input cr_steps 20012 (Some cr_E)) =
+  (codes "{""b"": tru }", 201, swidth (codes "{""b"": tru")).
+Proof. intros sw. vm_compute. reflexivity. Qed.
+
+(* a CR LF pair exactly at the end of the first 16384-byte chunk of getContents (CR = byte 16383, LF = byte 16384),
+   a lone CR and a CR CR LF later: the CR is kept in the window, the pair is counted once (by getLineByOffset) *)
+Definition split_input : list N :=
+  repeat 97%N 16383 ++ [13; 10]%N ++ repeat 98%N 3000 ++ [13]%N ++ repeat 99%N 2000 ++ [13; 13; 10]%N ++ codes "{""b"": tru }" ++ [10%N].
+Definition split_E : Z := 16383 + 2 + 3000 + 1 + 2000 + 3 + 10.
+Lemma split_seek_right : forall swidth,
+  zidx split_input 16383 = 13%N /\ zidx split_input 16384 = 10%N /\
+  report_of swidth (seek_report split_input (Some split_E)) = (codes "{""b"": tru }", 5, swidth (codes "{""b"": tru")) /\
+  spec_line split_input (Z.to_nat (split_E - 1)) = 5.
+Proof. intros sw. vm_compute. repeat split; reflexivity. Qed.
+(* the same pair at the end of the consumed bytes on the non-seekable path: the decoder has consumed 16384 bytes
+   (up to and including the CR) and read 17000 when the buffer is trimmed *)
+Lemma split_pipe_right : forall swidth,
+  chunking_ok split_input [(17000, 16384)] (zlen split_input) split_E /\
+  p_start (pipe_run split_input [(17000, 16384)]) = 16383 /\
+  report_of swidth (pipe_report split_input [(17000, 16384)] (zlen split_input) (Some split_E)) =
+    (codes "{""b"": tru }", 5, swidth (codes "{""b"": tru")).
+Proof. intros sw. vm_compute. repeat split; reflexivity. Qed.
